@@ -73,6 +73,8 @@ _SG = re.compile(
 )
 _VT = re.compile(r"^SIG_VALTYPE_ (\d+) (\w+)\s*:\s*(\d+)\s*;")
 _MUL = re.compile(r"^SG_MUL_VAL_ (\d+) (\w+) (\w+) ([^;]*);")
+_LONG_SG = re.compile(r'^BA_ "SystemSignalLongSymbol" SG_ (\d+) (\w+) "([^"]*)";')
+_LONG_BO = re.compile(r'^BA_ "SystemMessageLongSymbol" BO_ (\d+) "([^"]*)";')
 
 
 class DbcSyntaxError(Exception):
@@ -82,6 +84,8 @@ class DbcSyntaxError(Exception):
 def parse(text: str) -> Dbc:
     nodes: List[str] = []
     msgs: List[Msg] = []
+    long_sg: List[Tuple[int, str, str]] = []
+    long_bo: List[Tuple[int, str]] = []
     cur: Optional[Msg] = None
     for raw in text.split("\n"):
         line = raw.rstrip("\r")
@@ -118,8 +122,29 @@ def parse(text: str) -> Dbc:
                         a, b = part.strip().split("-")
                         s.mux_ranges.append((int(a), int(b)))
             continue
+        m = _LONG_SG.match(line)
+        if m:
+            long_sg.append((int(m.group(1)), m.group(2), m.group(3)))
+            continue
+        m = _LONG_BO.match(line)
+        if m:
+            long_bo.append((int(m.group(1)), m.group(2)))
+            continue
         if line.startswith("BO_ ") or line.startswith("SIG_VALTYPE_ ") or line.startswith("SG_MUL_VAL_ "):
             raise DbcSyntaxError(f"cannot read line: {line!r}")
+    # names longer than 32 characters are stored shortened, the full name travels in an attribute
+    for fid, short, full in long_sg:
+        for mm in msgs:
+            if mm.frame_id == fid:
+                for sg in mm.signals:
+                    if sg.name == short:
+                        sg.name = full
+                    if sg.mux_signal == short:
+                        sg.mux_signal = full
+    for fid, full in long_bo:
+        for mm in msgs:
+            if mm.frame_id == fid:
+                mm.name = full
     return Dbc(nodes, msgs)
 
 
